@@ -387,14 +387,14 @@ func generate() {
 // read: 64 KiB), with counts that are NOT chunk·2^k: the buffer is regrown while the value arrives and must end with exactly
 // the announced number of elements / bytes (Props/C04 array_decodes_to_announced_length, bytes_decode_to_announced_length).
 func generateBig(w *bufio.Writer, r *rand.Rand) {
-	counts := []int{1025, 1500}
+	counts := []int{1025 + r.Intn(1000)} // not 1024·2^k
 	sizes := []int{65537 + r.Intn(5000)}
-	arrays := map[int]bool{3: true, 30: true, 42: true} // Metadata, CreateAcls, DeleteGroups (flexible in their last versions)
+	arrays := map[int]bool{3: true, 30: true} // Metadata, CreateAcls (flexible in its last versions)
 	blobs := map[int]bool{14: true}                     // SyncGroup (compact bytes from v4)
 	if gen.Thorough() {
-		counts = append(counts, 1024, 2048, 2049, 3000, 5000)
+		counts = append(counts, 1024, 1025, 2048, 2049, 3000, 5000)
 		sizes = append(sizes, 65536, 131072, 131073, 200001, 1000001)
-		arrays[16], arrays[18], blobs[36] = true, true, true // ListGroups, ApiVersions, SaslAuthenticate
+		arrays[16], arrays[18], arrays[42], blobs[36] = true, true, true, true // ListGroups, ApiVersions, DeleteGroups, SaslAuthenticate
 	}
 	for i, m := range msgs.All {
 		if m.Override || !(arrays[m.ApiKey] || blobs[m.ApiKey]) {
